@@ -325,11 +325,11 @@ Proof.
       * destruct (g_ok x') eqn:OK'; [|reflexivity]. cbn [negb orb]. specialize (Main eq_refl).
         destruct (g_cr x'); [rewrite (proj1 Main); apply eqb_reflx|assumption].
       * destruct Cs as [(_ & R0 & rec' & _ & C & ->)|(-> & _)].
-        -- cbn [f_ready f_filled f_rec]. rewrite R0. cbn [negb andb].
+        -- cbn [f_ready f_filled f_rec f_retries]. rewrite Z.eqb_refl. cbn [andb]. rewrite R0. cbn [negb andb].
            destruct (correlate_get _ _ _ _ C) as [Gt Ln].
            rewrite andb_true_iff. split; [|apply Nat.eqb_eq; assumption].
            apply forallb_forall. intros fd _. rewrite Gt. apply oval_eqb_refl.
-        -- destruct (f_ready f0); cbn [negb andb]; apply flow_same_refl_on; reflexivity.
+        -- rewrite Z.eqb_refl. cbn [andb]. destruct (f_ready f0); cbn [negb andb]; apply flow_same_refl_on; reflexivity.
   - (* new flow *)
     destruct Cases as (E & Src).
     assert (X : km_find k g = None) by (apply Gn; reflexivity).
